@@ -82,6 +82,10 @@ pub struct FesProgram {
     /// fault: the queue is dropped while the thread unwinds from a panic of its user
     #[serde(default)]
     pub drop_in_unwind: bool,
+    /// fault: the destructor of the payload removed by the k-th cancel of a pending event panics; the user catches the
+    /// panic and carries on (payload "ptok" only)
+    #[serde(default)]
+    pub cancel_panic: Option<u32>,
 }
 
 // ---------------------------------------------------------------- payloads
@@ -652,6 +656,7 @@ fn run_ops<P: Payload>(prog: &FesProgram, prop: &str, n: usize, t: u64, page: us
     let mut now: u64 = 0;
     let mut pending: usize = 0;
     let mut pending_never: usize = 0;
+    let mut cancels_done: u32 = 0;
     let mut th = TraceHash::default();
     let mut any_cancel = false;
     let mut fetch_after_cancel = false;
@@ -776,7 +781,19 @@ fn run_ops<P: Payload>(prog: &FesProgram, prop: &str, n: usize, t: u64, page: us
                 }
                 info.probe("cancel_pending");
                 let h = entries[i].handle.take().unwrap();
-                q.cancel(h);
+                let inject = prog.payload == "ptok" && prog.cancel_panic == Some(cancels_done);
+                cancels_done += 1;
+                if inject {
+                    PANIC_ON.with(|p| *p.borrow_mut() = Some(i as u64));
+                    let r = std::panic::catch_unwind(std::panic::AssertUnwindSafe(|| q.cancel(h)));
+                    PANIC_ON.with(|p| *p.borrow_mut() = None);
+                    if r.is_err() {
+                        crate::clear_panic();
+                        info.probe("destructor_panic_during_cancel");
+                    }
+                } else {
+                    q.cancel(h);
+                }
                 entries[i].st = St::Cancelled;
                 pending -= 1;
                 if entries[i].time == NEVER {
@@ -1201,5 +1218,10 @@ pub fn generate(prop: &str, rng: &mut Rng, tier: Tier) -> FesProgram {
         drain = false;
     }
     let drop_in_unwind = prop == "C15" && drop_panic.is_none() && !drain && rng.chance(1, 4);
-    FesProgram { n, t_ns, page_size, payload, inv_every, ops, drain, drop_panic, drop_in_unwind }
+    let cancel_panic = if payload == "ptok" && rng.chance(1, 2) { Some(rng.below(5) as u32) } else { None };
+    if cancel_panic.is_some() && rng.chance(1, 2) {
+        drop_panic = None;
+        drain = rng.chance(1, 2);
+    }
+    FesProgram { n, t_ns, page_size, payload, inv_every, ops, drain, drop_panic, drop_in_unwind, cancel_panic }
 }
